@@ -118,3 +118,33 @@ def afterField (eol : List Char) (vTrail : List Triv) (sep : Option (List Triv Ã
     (movedLines eol vTrail ++ [Out.newline]).map some
 
 end StyluaModel.TableField
+
+/-
+Model of what a multi-line argument list prints behind an argument (/repo/src/formatters/general.rs
+format_contained_punctuated_multiline 520-585): block comments stay behind the argument; the comma loses its leading
+trivia, whose comments are appended *behind* it, each on a line of its own, after the comma's own trailing trivia;
+then the argument's line comments; then the line ending. Without a comma (last argument) a phantom token carries the
+line comments and the line ending. `aTrail`: trailing trivia of the formatted argument (a parameter).
+-/
+namespace StyluaModel.CallArg
+open StyluaModel.Trivia StyluaModel.Semi StyluaModel.HangOp StyluaModel.FieldKey
+
+def blocksOut : List Out â†’ List Out
+  | [] => []
+  | .comment (.block l) t :: r => .comment (.block l) t :: blocksOut r
+  | _ :: r => blocksOut r
+
+def linesOut : List Out â†’ List Out
+  | [] => []
+  | .comment .line t :: r => .comment .line t :: linesOut r
+  | _ :: r => linesOut r
+
+def afterArg (eol : List Char) (aTrail : List Out) (sep : Option (List Triv Ã— List Triv)) : List (Option Out) :=
+  (sameLine (blocksOut aTrail)).map some ++
+    (match sep with
+     | some (pl, pt) =>
+        [none] ++ (load eol .trailing pt ++ ownLine (onlyComments (load eol .leading pl))).map some
+     | none => []) ++
+    (sameLine (linesOut aTrail) ++ [Out.newline]).map some
+
+end StyluaModel.CallArg
